@@ -4,7 +4,8 @@
 //	                                  descriptor, the real HTTP parser, Upgrader.Upgrade inside the request's job, the
 //	                                  conn's real job queue (Conn.Execute/MustExecute) — with GATED callbacks: every
 //	                                  open/message/close handler blocks until the harness releases it.
-//	  O upgrade | recv | flip | cb | Q        R log=<completed callbacks> run=<callback currently held or ->
+//	  O upgrade | go | recv | flip | cb | Q   R log=<completed callbacks> run=<callback currently held or ->
+//	  (`C … cb holdexec=1`: the executor holds the upgrade request's closure until `go`, so `flip` can overtake it)
 //
 //	C <id> wq bound=<n> maxframe=<bytes> client=<0|1>
 //	                                  queued (asynchronous send queue) mode on an in-memory conn whose Write is GATED:
@@ -32,6 +33,8 @@ package main
 
 import (
 	"bufio"
+	"bytes"
+	"compress/flate"
 	"encoding/binary"
 	"errors"
 	"fmt"
@@ -74,9 +77,20 @@ func gen(g *lp.Gen) {
 }
 
 func genCB(g *lp.Gen, id int) {
-	g.P("C %d cb", id)
-	g.P("O upgrade")
 	flipped := false
+	if g.Chance(1, 4) {
+		// the executor holds the upgrade request's closure: the close can overtake the upgrade job
+		g.P("C %d cb holdexec=1", id)
+		g.P("O upgrade")
+		if g.Chance(1, 2) {
+			g.P("O flip")
+			flipped = true
+		}
+		g.P("O go")
+	} else {
+		g.P("C %d cb", id)
+		g.P("O upgrade")
+	}
 	n := 3 + g.Intn(12)
 	for k := 0; k < n; k++ {
 		switch r := g.Intn(10); {
@@ -102,7 +116,15 @@ func genCB(g *lp.Gen, id int) {
 
 func genWQ(g *lp.Gen, id int) {
 	maxf := g.PickInt(8, 16, 64)
-	g.P("C %d wq bound=%d maxframe=%d client=%d", id, g.PickInt(0, 0, 0, 2, 3, 5), maxf, g.Intn(2))
+	comp := g.Chance(1, 4)
+	if comp {
+		// permessage-deflate with incompressible payloads: the compressed message is a few bytes LONGER than the
+		// payload, so a payload of exactly k frames needs k+1 fragments
+		maxf = g.PickInt(32, 64)
+		g.P("C %d wq bound=%d maxframe=%d client=%d comp=1", id, g.PickInt(0, 2, 3, 3, 4, 5), maxf, g.Intn(2))
+	} else {
+		g.P("C %d wq bound=%d maxframe=%d client=%d", id, g.PickInt(0, 0, 0, 2, 3, 5), maxf, g.Intn(2))
+	}
 	n := 3 + g.Intn(14)
 	pend := 0
 	for k := 0; k < n; k++ {
@@ -113,6 +135,11 @@ func genWQ(g *lp.Gen, id int) {
 			ln := maxf*fr - g.PickInt(0, 0, 1, maxf-1)
 			if g.Chance(1, 12) {
 				ln = 0
+			}
+			if comp {
+				fr = g.PickInt(1, 2, 2, 3, 4)
+				ln = maxf*fr - g.PickInt(0, 0, maxf/2)
+				pend++
 			}
 			g.P("O write %d", ln)
 			pend += fr
@@ -171,6 +198,7 @@ func genE2E(g *lp.Gen, id int) {
 type frame struct {
 	op      int
 	fin     bool
+	rsv1    bool
 	payload []byte
 }
 
@@ -214,7 +242,7 @@ func decode(data []byte) (fs []frame, rest []byte) {
 				p[i] ^= key[i%4]
 			}
 		}
-		fs = append(fs, frame{op: int(b0 & 0x0f), fin: b0&0x80 != 0, payload: p})
+		fs = append(fs, frame{op: int(b0 & 0x0f), fin: b0&0x80 != 0, rsv1: b0&0x40 != 0, payload: p})
 		data = data[h+n:]
 	}
 }
@@ -228,6 +256,86 @@ func payloadOf(gid, n int) []byte {
 	return b
 }
 
+// payloadRnd: incompressible payload of call gid (xorshift stream seeded by the call number)
+func payloadRnd(gid, n int) []byte {
+	b := make([]byte, n)
+	x := uint32(gid)*2654435761 + 12345
+	for i := range b {
+		x ^= x << 13
+		x ^= x >> 17
+		x ^= x << 5
+		b[i] = byte(x >> 11)
+	}
+	return b
+}
+
+// deflatedLen: what a permessage-deflate sender produces for p at the default level (tail trimmed), computed with the
+// standard library — used only to estimate the number of fragments of a call the implementation REFUSED
+func deflatedLen(p []byte) int {
+	var buf bytes.Buffer
+	w, _ := flate.NewWriter(&buf, 1)
+	_, _ = w.Write(p)
+	_ = w.Flush()
+	n := buf.Len() - 4
+	if n < 1 {
+		n = 1
+	}
+	return n
+}
+
+func inflate(p []byte) ([]byte, error) {
+	r := flate.NewReader(io.MultiReader(bytes.NewReader(p), strings.NewReader("\x00\x00\xff\xff\x01\x00\x00\xff\xff")))
+	defer r.Close()
+	return io.ReadAll(r)
+}
+
+type qcall struct {
+	gid, n int
+	ok     bool
+}
+
+// identifyComp maps the frames of a compressed queued-mode stream to (call, fragment) pairs by the order in which the
+// calls queued their frames (`calls`: every call that queued anything, with the number of frames it queued), and checks
+// structure (opcode / RSV1 / FIN) and, for complete groups of calls that returned nil, the inflated content.
+func identifyComp(fs []frame, calls []qcall, lens map[int]int, partialOK bool) (ids []string, problem string) {
+	ci, k := 0, 0
+	var acc []byte
+	for i, f := range fs {
+		if ci >= len(calls) {
+			return ids, fmt.Sprintf("frame %d: more frames on the wire than were queued", i)
+		}
+		c := calls[ci]
+		ids = append(ids, fmt.Sprintf("%d:%d", c.gid, k))
+		if k == 0 && (f.op == 0 || !f.rsv1) {
+			return ids, fmt.Sprintf("frame %d: first frame of call %d has opcode %d rsv1=%v", i, c.gid, f.op, f.rsv1)
+		}
+		if k > 0 && f.op != 0 {
+			return ids, fmt.Sprintf("frame %d: a new message starts inside the group of call %d (after %d of %d fragments)", i, c.gid, k, c.n)
+		}
+		acc = append(acc, f.payload...)
+		last := k == c.n-1
+		if c.ok && f.fin != last {
+			return ids, fmt.Sprintf("frame %d: FIN=%v on fragment %d of %d of call %d", i, f.fin, k+1, c.n, c.gid)
+		}
+		if !c.ok {
+			// frames of a call that did not return nil must not be on the wire at all
+			return ids, fmt.Sprintf("frame %d: fragment %d of call %d, which returned an error, is on the wire", i, k, c.gid)
+		}
+		k++
+		if last {
+			got, err := inflate(acc)
+			if err != nil || string(got) != string(payloadRnd(c.gid, lens[c.gid])) {
+				return ids, fmt.Sprintf("the group of call %d does not inflate to its payload (%v)", c.gid, err)
+			}
+			ci, k, acc = ci+1, 0, nil
+		}
+	}
+	if k > 0 && !partialOK {
+		return ids, fmt.Sprintf("the group of call %d is incomplete (%d of %d fragments) and the connection is quiescent", calls[ci].gid, k, calls[ci].n)
+	}
+	return ids, ""
+}
+
 func nfrag(n, maxf int) int {
 	if n == 0 {
 		return 1
@@ -238,7 +346,15 @@ func nfrag(n, maxf int) int {
 // identify maps the decoded frames to (call, fragment) pairs using the known payload lengths per call; reports a
 // wholeness violation as a string ("" = the stream is a concatenation of whole groups of the calls in `lens`, each at
 // most once; `partialOK` allows the last group to be incomplete).
-func identify(fs []frame, lens map[int]int, maxf int, partialOK bool) (ids []string, problem string) {
+func identify(fs []frame, lens map[int]int, maxf int, partialOK bool, refused ...map[int]string) (ids []string, problem string) {
+	// calls known to have been refused are only taken when no accepted call matches (identical payloads: empty messages)
+	isRefused := func(g int) bool {
+		if len(refused) == 0 {
+			return false
+		}
+		r, ok := refused[0][g]
+		return ok && r != "ok"
+	}
 	cur, next := -1, 0
 	seen := map[int]bool{}
 	for i, f := range fs {
@@ -253,7 +369,7 @@ func identify(fs []frame, lens map[int]int, maxf int, partialOK bool) (ids []str
 			// which call? match by payload content of fragment 0
 			// (calls with the same payload — the empty message — are indistinguishable: the lowest-numbered
 			// call not yet seen is taken)
-			found, dup := -1, -1
+			found, dup, refusedCand := -1, -1, -1
 			gids := make([]int, 0, len(lens))
 			for gid := range lens {
 				gids = append(gids, gid)
@@ -270,9 +386,18 @@ func identify(fs []frame, lens map[int]int, maxf int, partialOK bool) (ids []str
 						dup = gid
 						continue
 					}
+					if isRefused(gid) {
+						if refusedCand < 0 {
+							refusedCand = gid
+						}
+						continue
+					}
 					found = gid
 					break
 				}
+			}
+			if found < 0 && refusedCand >= 0 {
+				found = refusedCand
 			}
 			if found < 0 && dup >= 0 {
 				ids = append(ids, fmt.Sprintf("%d:0", dup))
@@ -431,23 +556,33 @@ func waitFor(cond func() bool, d time.Duration) bool {
 // ---------------------------------------------------------------------------------- wq: queued mode, gated drainer
 
 func runWQ(e *lp.Exec, head string, ops []string) {
+	lens0 := map[int]int{}
 	ws := strings.Fields(head)
 	bound, maxf, client := atoi(field(ws, "bound")), atoi(field(ws, "maxframe")), field(ws, "client") == "1"
+	comp := field(ws, "comp") == "1"
 	eng := engineFor(maxf)
 	u := websocket.NewUpgrader()
 	u.Engine = eng
 	u.BlockingModSendQueueMaxSize = uint16(bound)
+	u.EnableCompression(comp)
 	gc := &gconn{gated: true}
 	var wc *websocket.Conn
 	if client {
-		wc = websocket.NewClientConn(u, gc, "", false, true)
+		wc = websocket.NewClientConn(u, gc, "", comp, true)
 	} else {
-		wc = websocket.NewServerConn(u, gc, "", false, true)
+		wc = websocket.NewServerConn(u, gc, "", comp, true)
+	}
+	rets := map[int]string{}
+	var qcalls []qcall // comp: the calls that queued frames, in order
+	ident := func(fs []frame, partialOK bool) ([]string, string) {
+		if comp {
+			return identifyComp(fs, qcalls, lens0, partialOK)
+		}
+		return identify(fs, lens0, maxf, partialOK, rets)
 	}
 	e.P("> %s", head)
 	e.P("ok")
-	lens := map[int]int{}
-	rets := map[int]string{}
+	lens := lens0
 	gid := 0
 	sentErr := false
 	closed := false
@@ -468,11 +603,13 @@ func runWQ(e *lp.Exec, head string, ops []string) {
 	}
 	for _, ln := range ops {
 		ow := strings.Fields(ln)
-		e.P("> %s", ln)
+		if !(ow[0] == "O" && ow[1] == "write") {
+			e.P("> %s", ln)
+		}
 		switch {
 		case ow[0] == "Q":
 			fs, rest := decode(gc.wire)
-			ids, prob := identify(fs, lens, maxf, true)
+			ids, prob := ident(fs, true)
 			if prob != "" || len(rest) != 0 {
 				e.Oracle("c14-frames-whole", "%s (undecoded tail %d bytes); frames so far %v", prob, len(rest), ids)
 			}
@@ -482,10 +619,34 @@ func runWQ(e *lp.Exec, head string, ops []string) {
 		case ow[1] == "write":
 			n := atoi(ow[2])
 			lens[gid] = n
-			err := wc.WriteMessage(websocket.BinaryMessage, payloadOf(gid, n))
+			pl := payloadOf(gid, n)
+			if comp {
+				pl = payloadRnd(gid, n)
+			}
+			ql0 := wc.VerifStopState().QueueLen
+			err := wc.WriteMessage(websocket.BinaryMessage, pl)
+			queued := wc.VerifStopState().QueueLen - ql0
 			rets[gid] = retKind(err)
+			frags := nfrag(n, maxf)
+			if comp {
+				// the number of fragments of a compressed message is the implementation's business: for an accepted
+				// call it is what it queued; for a refused one it is estimated with the standard library's deflate
+				if rets[gid] == "ok" {
+					frags = queued
+				} else {
+					frags = nfrag(deflatedLen(pl), maxf)
+				}
+				if queued > 0 {
+					qcalls = append(qcalls, qcall{gid, queued, rets[gid] == "ok"})
+				}
+			}
+			// the op line carries the fragment count the model is to use
+			e.P("> O write %d frags=%d", n, frags)
+			if rets[gid] != "ok" && queued > 0 {
+				e.Oracle("c14-frames-whole", "queued bound=%d: call %d returned %s but left %d of its fragments in the send queue", bound, gid, rets[gid], queued)
+			}
 			e.P("R ret=%s", rets[gid])
-			shape += fmt.Sprintf("|w%d:%s", nfrag(n, maxf), rets[gid])
+			shape += fmt.Sprintf("|w%d:%s", frags, rets[gid])
 			gid++
 			waitFor(func() bool { return gc.nwait() > 0 || wc.VerifStopState().QueueLen == 0 || sentErr || closed }, 100*time.Millisecond)
 			twoDrainers()
@@ -504,7 +665,7 @@ func runWQ(e *lp.Exec, head string, ops []string) {
 				if ok {
 					gc.wire = append(gc.wire, r.data...)
 					fs, _ := decode(gc.wire)
-					ids, _ := identify(fs, lens, maxf, true)
+					ids, _ := ident(fs, true)
 					if len(ids) > 0 {
 						id = ids[len(ids)-1]
 					}
@@ -540,7 +701,7 @@ func runWQ(e *lp.Exec, head string, ops []string) {
 	fs, rest := decode(wire)
 	st := wc.VerifStopState()
 	quiescent := gc.nwait() == 0 && st.QueueLen == 0 && !sentErr && !closed
-	ids, prob := identify(fs, lens, maxf, !quiescent)
+	ids, prob := ident(fs, !quiescent)
 	if prob != "" || len(rest) != 0 {
 		e.Oracle("c14-frames-whole", "queued bound=%d: %s; frames %v", bound, prob, ids)
 	} else {
@@ -824,6 +985,11 @@ func checkLog(e *lp.Exec, l *cbLog, connEnded bool, what string) {
 func runCB(e *lp.Exec, head string, ops []string) {
 	vsys.VirtualAll = true
 	l := &cbLog{gate: make(chan struct{}, 1024)}
+	var hold, holdRel chan struct{}
+	if field(strings.Fields(head), "holdexec") == "1" {
+		hold = make(chan struct{})
+		holdRel = hold
+	}
 	u := websocket.NewUpgrader()
 	u.KeepaliveTime = 0
 	u.OnOpen(func(c *websocket.Conn) { l.enter("open") })
@@ -832,8 +998,16 @@ func runCB(e *lp.Exec, head string, ops []string) {
 	mux := http.NewServeMux()
 	mux.HandleFunc("/ws", func(w http.ResponseWriter, r *http.Request) { _, _ = u.Upgrade(w, r, nil) })
 	eng := nbhttp.NewEngine(nbhttp.Config{NPoller: 1, Handler: mux, SupportServerOnly: true, KeepaliveTime: time.Hour,
-		BodyAllocator:  mempool.New(1024, 1<<20),
-		ServerExecutor: func(f func()) { go f() }})
+		BodyAllocator: mempool.New(1024, 1<<20),
+		ServerExecutor: func(f func()) {
+			if hold != nil {
+				ch := hold
+				hold = nil
+				go func() { <-ch; f() }()
+				return
+			}
+			go f()
+		}})
 	u.Engine = eng
 	if err := eng.Start(); err != nil {
 		panic(err)
@@ -882,6 +1056,11 @@ func runCB(e *lp.Exec, head string, ops []string) {
 		case ow[0] == "Q":
 		case ow[1] == "upgrade":
 			feed([]byte(upgradeReq))
+		case ow[1] == "go":
+			if holdRel != nil {
+				close(holdRel)
+				holdRel = nil
+			}
 		case ow[1] == "recv":
 			if !flipped {
 				feed(maskedFrame(1, []byte(fmt.Sprintf("m%d", seq))))
@@ -916,6 +1095,9 @@ func runCB(e *lp.Exec, head string, ops []string) {
 	e.Key(shape+l.line(), seq >= 2)
 	e.Count("cases", "cb")
 	// drain
+	if holdRel != nil {
+		close(holdRel)
+	}
 	for i := 0; i < 64; i++ {
 		l.gate <- struct{}{}
 	}
@@ -1041,7 +1223,7 @@ func runE2E(e *lp.Exec, head string, ops []string) {
 		if err != nil {
 			panic(err)
 		}
-		_ = c.SetDeadline(time.Now().Add(20 * time.Second))
+		_ = c.SetDeadline(time.Now().Add(90 * time.Second))
 		// the handshake; the messages follow in one write as soon as the 101 response is here — the server writes
 		// that response BEFORE it calls the open handler, so they race the (slow) open handler
 		_, _ = c.Write([]byte(upgradeReq))
@@ -1062,6 +1244,7 @@ func runE2E(e *lp.Exec, head string, ops []string) {
 		var wire []byte
 		var ids []string
 		prob := ""
+		starved := false
 		if ok101 {
 			buf := make([]byte, 1<<16)
 			want := writers * nfrag(size, maxf)
@@ -1074,6 +1257,9 @@ func runE2E(e *lp.Exec, head string, ops []string) {
 				n, err := br.Read(buf)
 				wire = append(wire, buf[:n]...)
 				if err != nil {
+					if ne, ok := err.(net.Error); ok && ne.Timeout() {
+						starved = true // the client's own deadline: the machine is overloaded, nothing can be concluded
+					}
 					break
 				}
 			}
@@ -1089,6 +1275,14 @@ func runE2E(e *lp.Exec, head string, ops []string) {
 		cl.done, cl.overlap, cl.closes = append([]string(nil), l.done...), l.overlap, l.closes
 		l.mu.Unlock()
 		what := fmt.Sprintf("e2e path=%s queued=%v", path, queued)
+		if starved || (!ok101 && err != nil && isTimeout(err)) {
+			// one-sided: a client-side timeout on an overloaded machine says nothing about the property
+			e.P("> %s skip=1", ln)
+			e.P("R skipped")
+			e.Count("e2e", "skipped-client-timeout")
+			stop()
+			continue
+		}
 		if !ok101 {
 			e.Oracle("c14-callback-order", "%s: upgrade failed: %v", what, err)
 		}
@@ -1138,6 +1332,11 @@ func runE2E(e *lp.Exec, head string, ops []string) {
 		e.Count("e2e", path)
 		stop()
 	}
+}
+
+func isTimeout(err error) bool {
+	ne, ok := err.(net.Error)
+	return ok && ne.Timeout()
 }
 
 func stopWithin(f func()) {
